@@ -42,13 +42,23 @@ MANIFEST = {
             'tag that occurs in the source and starts on the reported line, '
             'every compile must finish within the CPU budget, corpus '
             'templates must be accepted and constructed grammar violations '
-            'rejected.',
+            'rejected.  Two systematic tables decide accept/reject: every '
+            'candidate tag name (all substrings, one-character deletions '
+            'and doublings of the known names) without arguments inside '
+            'every block kind and at top level is accepted iff it is a '
+            'continuation that block takes; every attribute of any tag '
+            'offered to every tag is accepted iff the tag documents it, '
+            'whatever was compiled before (accepting tags first / last).',
     'note': 'Trusted: the construction of the grammar-violation table (each '
             'entry violates exactly one stated rule); CPU budget 4 s per '
             'compile (normal: < 1 ms).  Nesting deeper than the Python '
             'recursion limit is out of scope.',
 }
-RULE = ('families tok / mut / prefix / pump / gram as in the module '
+RULE = ('families tok / mut / prefix / pump / gram / gram2 (every candidate '
+        'tag name - substrings, deletions, doublings of all known names - '
+        'inside every block kind and at top level, three syntaxes) / gram3 '
+        '(every attribute of any tag offered to every tag, accepting tags '
+        'compiled first and last) as in the module '
         'docstring.  A source is non-trivial when the parser recognised at '
         'least one tag in it or rejected it (i.e. it is not plain text).')
 ASSUMPTIONS = ['templates nested deeper than 64 levels are not generated '
